@@ -291,6 +291,55 @@ macro_rules! ks_helpers {
             m.gglwe_to_ggsw_key_prepare(&mut kp, &k, sc.borrow());
             (k, kp)
         }
+        /// LWE secret (ternary) and its coefficients
+        fn lwe_sk_new(n_lwe: usize, seed: u64) -> LWESecret<Vec<u8>> {
+            let mut sk = LWESecret::alloc(Degree(n_lwe as u32));
+            sk.fill_ternary_prob(0.5, &mut src(seed));
+            sk
+        }
+        fn lwe_sk_coeffs(sk: &LWESecret<Vec<u8>>) -> Vec<i128> { sk.raw().iter().map(|x| *x as i128).collect() }
+        /// LWE from flat words ((n_lwe+1) * size, limb-major)
+        fn lwe_from(n_lwe: usize, b: usize, size: usize, flat: &[i128]) -> LWE<Vec<u8>> {
+            let mut ct = LWE::alloc(Degree(n_lwe as u32), Base2K(b as u32), TorusPrecision((size * b) as u32));
+            assert_eq!(flat.len(), (n_lwe + 1) * size, "lwe_from: bad length");
+            let bytes = words_to_bytes(&v64(flat));
+            let d: &mut Vec<u8> = &mut ct.data_mut().data;
+            d[..bytes.len()].copy_from_slice(&bytes);
+            ct
+        }
+        fn lwe_dump(ct: &LWE<Vec<u8>>) -> Vec<i128> {
+            let v = ct.data();
+            let mut out = Vec::new();
+            for j in 0..v.size() { out.extend(v.at(0, j).iter().map(|x| *x as i128)); }
+            out
+        }
+        /// the automorphism keys of the trace / packing family
+        fn atk_map(m: &M, h: &Hdr, sk: &GLWESecret<Vec<u8>>, seed: u64) -> HashMap<i64, GLWEAutomorphismKeyPrepared<DeviceBuf<$T>, $T>> {
+            let mut keys = HashMap::new();
+            for (j, g) in m.glwe_trace_galois_elements().into_iter().enumerate() {
+                let (_k, kp) = atk_new(m, h, sk, g, seed.wrapping_add(1000 + j as u64));
+                keys.insert(g, kp);
+            }
+            keys
+        }
+        /// run the operation under test twice with two different garbage fills of the scratch space;
+        /// returns the first result and whether the second is identical
+        fn twice<F: FnMut(i64) -> Vec<Vec<i128>>>(mut f: F) -> (Vec<Vec<i128>>, i128) {
+            let a = f(0x4330_0000_0000_0001i64);
+            let b = f(-0x0123_4567_89ab_cdefi64);
+            let same = (a == b) as i128;
+            (a, same)
+        }
+        /// write flat words into a GLWE view (cell of a GGLWE / GGSW)
+        fn glwe_fill(g: &mut GLWE<&mut [u8]>, flat: &[i128]) {
+            let (n, cols, size) = { let v = g.data(); (v.n(), v.cols(), v.size()) };
+            assert_eq!(flat.len(), n * cols * size);
+            for j in 0..size { for c in 0..cols {
+                let o = n * (j * cols + c);
+                let dst = g.data_mut().at_mut(c, j);
+                for (d, s) in dst.iter_mut().zip(flat[o..o + n].iter()) { *d = *s as i64; }
+            } }
+        }
         /// fresh encryption of a uniformly random plaintext (noise at 2^-k)
         fn glwe_fresh(m: &M, lay: &GLWELayout, k_noise: usize, sk: &GLWESecret<Vec<u8>>, seed: u64) -> (GLWE<Vec<u8>>, GLWEPlaintext<Vec<u8>>) {
             let mut ct = GLWE::alloc_from_infos(lay);
